@@ -513,4 +513,246 @@ theorem innerResume_spec {child i c g w} (hch : ChildOK child i) (p : PreInner i
       p.inv.setGen_lt (Nat.lt_succ_self i), p.no.setGen_lt (Nat.lt_succ_self i), ⟨p.good.obs, p.good.nrecs⟩,
       (Frame.refl i w).setGen_right p.tbl rfl, p.lt, p.cur⟩
 
+/-! ### the wrapper generator object -/
+
+theorem Frame.core_left {j w0 w0' w} (f : Frame j w0 w) (hc : Core w0 w0') : Frame j w0' w := by
+  refine ⟨f.cur_eq.trans hc.cur.symm, hc.nctx ▸ f.nctx_le, f.dtoks_eq.trans hc.dtoks.symm, ?_, ?_, ?_⟩
+  · intro k hk; rw [hc.gens]; exact f.gens_lt k hk
+  · intro c h1 h2
+    rw [hc.ctxs]
+    exact f.ctxs_eq c (hc.nctx ▸ h1) (fun k g hk hg => h2 k g hk (by rw [hc.gens]; exact hg))
+  · intro k g' c hg hw
+    rw [hc.gens, hc.nctx]
+    exact f.wctx_new k g' c hg hw
+
+theorem Frame.withCur {j w w'} (f : Frame j w w') (x : Nat) : Frame j { w with cur := x } { w' with cur := x } :=
+  ⟨rfl, f.nctx_le, f.dtoks_eq, f.gens_lt, f.ctxs_eq, f.wctx_new⟩
+
+theorem GenOK.nctx_le {w g n} (h : GenOK w g) (hn : w.nctx ≤ n) : GenOK { w with nctx := n } g := by
+  unfold GenOK at *
+  refine ⟨h.1, ?_⟩
+  have h2 := h.2
+  cases hw : g.wctx with
+  | none => rw [hw] at h2; exact h2
+  | some c => rw [hw] at h2; exact ⟨Nat.lt_of_lt_of_le h2.1 hn, h2.2⟩
+
+theorem InvFrom.nctx_le {j w n} (h : InvFrom j w) (hn : w.nctx ≤ n) : InvFrom j { w with nctx := n } :=
+  ⟨fun k g hk hg => (h.ok k g hk hg).nctx_le hn, h.distinct⟩
+
+theorem InvFrom.owned_lt {j w k g c} (h : InvFrom j w) (hk : j ≤ k) (hg : w.gens k = some g) (hc : g.wctx = some c) :
+    c < w.nctx := by
+  have := (h.ok k g hk hg).2
+  rw [hc] at this; exact this.1
+
+theorem InvFrom.extend {j w g} (h : InvFrom (j+1) w) (hg : w.gens j = some g) (hok : GenOK w g)
+    (hno : ∀ c, g.wctx = some c → NotOwnedFrom (j+1) w c) : InvFrom j w := by
+  constructor
+  · intro k g' hk hg'
+    by_cases hkj : k = j
+    · subst hkj; rw [hg] at hg'; cases hg'; exact hok
+    · exact h.ok k g' (by omega) hg'
+  · intro k k' g1 g2 c hk hk' hne h1 h2 hc hc'
+    by_cases hkj : k = j <;> by_cases hkj' : k' = j
+    · omega
+    · subst hkj; rw [hg] at h1; cases h1
+      exact hno c hc k' g2 (by omega) h2 hc'
+    · subst hkj'; rw [hg] at h2; cases h2
+      exact hno c hc' k g1 (by omega) h1 hc
+    · exact h.distinct k k' g1 g2 c (by omega) (by omega) hne h1 h2 hc hc'
+
+theorem InvFrom.withCur {j w} (h : InvFrom j w) (x : Nat) : InvFrom j { w with cur := x } :=
+  ⟨fun k g hk hg => h.ok k g hk hg, h.distinct⟩
+
+theorem runIn_snd (c : Nat) (f : World → Out × World) (w : World) :
+    (runIn c f w).2 = { (f { w with cur := c }).2 with cur := w.cur } := by
+  unfold runIn
+  generalize f { w with cur := c } = r
+  obtain ⟨o, w'⟩ := r
+  rfl
+
+def WrapPost (i : Nat) (w : World) (wst : Status) (w' : World) : Prop :=
+  ∃ g' c, w'.gens i = some g' ∧ g'.wctx = some c ∧ g'.wrapped = true ∧ g'.wst = wst ∧ g'.ist ≠ .unstarted ∧
+    TokChain c g'.base g'.own g'.toks (w'.ctxs c) ∧ c < w'.nctx ∧ c ≠ w.cur ∧ InvFrom (i+1) w' ∧
+    NotOwnedFrom (i+1) w' c ∧ Good w' ∧ Frame i w w'
+
+theorem wrapPost_of_inner {i c w w3 w4 wst} (hcore : Core w { w3 with cur := w.cur }) (hne : c ≠ w.cur)
+    (h : InnerPost i c w3 wst w4) : WrapPost i w wst { w4 with cur := w.cur } := by
+  obtain ⟨g', hg', h1, h2, h3, h4, h5, h6, h7, h8, h9, h10, _⟩ := h
+  refine ⟨g', c, hg', h1, h2, h3, h4, h5, h10, hne, h6.withCur w.cur, h7, ⟨h8.obs, h8.nrecs⟩, ?_⟩
+  exact (h9.withCur w.cur).core_left ⟨hcore.gens.symm, hcore.ctxs.symm, hcore.nctx.symm, rfl, hcore.dtoks.symm⟩
+
+theorem wrapBodyW_spec {k child i g w} (hch : ChildOK child i) (hinv : InvFrom i w) (hlt : w.cur < w.nctx)
+    (hno : NotOwnedFrom i w w.cur) (hgood : Good w) (hpend : w.pending = w.ctxs w.cur)
+    (hg : w.gens i = some g) (b : BIn) (hb : b = .start → g.wst = .unstarted) :
+    (wrapBodyW k child i b w).2 = w ∨ WrapPost i w g.wst (wrapBodyW k child i b w).2 := by
+  have hok := hinv.ok i g (Nat.le_refl _) hg
+  have hinv1 : InvFrom (i+1) w := hinv.mono (Nat.le_succ i)
+  cases hw : g.wctx with
+  | none =>
+    have h2 := hok.2
+    rw [hw] at h2
+    obtain ⟨ht, ho, hi⟩ := h2
+    by_cases hbs : b = .start
+    · subst hbs
+      right
+      -- context = copy_context()
+      have hfresh : NotOwnedFrom (i+1) w w.nctx := by
+        intro k' g' hk' hg' hc'
+        have := hinv.owned_lt (Nat.le_of_succ_le hk') hg' hc'
+        omega
+      have hp : PreInner i w.nctx { g with wctx := some w.nctx }
+          { ({ (w.setCtx w.nctx (w.ctxs w.cur)) with nctx := w.nctx + 1 } : World).setGen i { g with wctx := some w.nctx } with cur := w.nctx } := by
+        refine ⟨by simp [World.setGen], rfl, Nat.lt_succ_self _, hok.1, rfl, ?_, ?_, ⟨hgood.obs, hgood.nrecs⟩⟩
+        · exact (((hinv1.setCtx hfresh).nctx_le (Nat.le_succ _)).setGen_lt (Nat.lt_succ_self i)).withCur _
+        · exact (NotOwnedFrom.setGen_lt (w := { (w.setCtx w.nctx (w.ctxs w.cur)) with nctx := w.nctx + 1 }) hfresh (Nat.lt_succ_self i))
+      have hpost := innerResume_spec hch hp (wrapInput .start)
+        (fun _ => ⟨rfl, ht, ho, by simp [World.setGen, World.setCtx, hpend]⟩) (fun h => absurd hi h)
+      have hne : w.nctx ≠ w.cur := by omega
+      have hfin := wrapPost_of_inner (w := { ({ (w.setCtx w.nctx (w.ctxs w.cur)) with nctx := w.nctx + 1 } : World).setGen i { g with wctx := some w.nctx } with cur := w.cur })
+        (w3 := { ({ (w.setCtx w.nctx (w.ctxs w.cur)) with nctx := w.nctx + 1 } : World).setGen i { g with wctx := some w.nctx } with cur := w.nctx })
+        ⟨rfl, rfl, rfl, rfl, rfl⟩ hne hpost
+      -- the frame of the allocation itself
+      have hfa : Frame i w ({ ({ (w.setCtx w.nctx (w.ctxs w.cur)) with nctx := w.nctx + 1 } : World).setGen i { g with wctx := some w.nctx } with cur := w.cur }) := by
+        refine ⟨rfl, Nat.le_succ _, rfl, ?_, ?_, ?_⟩
+        · intro k' hk'
+          have : k' ≠ i := by omega
+          simp [World.setGen, World.setCtx, this]
+        · intro c' hc' _
+          have : c' ≠ w.nctx := by omega
+          simp [World.setGen, World.setCtx, this]
+        · intro k' g' c' hg' hc'
+          by_cases hk' : k' = i
+          · subst hk'
+            simp only [World.setGen, if_true] at hg'
+            cases hg'
+            simp only at hc'
+            cases hc'
+            exact Or.inr (Nat.le_refl _)
+          · simp only [World.setGen, hk', if_false] at hg'
+            exact Or.inl ⟨g', hg', hc'⟩
+      obtain ⟨g', c, a1, a2, a3, a4, a5, a6, a7, a8, a9, a10, a11, a12⟩ := hfin
+      unfold wrapBodyW
+      rw [hg]
+      simp only [runIn_snd]
+      exact ⟨g', c, a1, a2, a3, a4, a5, a6, a7, a8, a9, a10, a11, hfa.trans a12⟩
+    · left
+      unfold wrapBodyW
+      rw [hg]
+      cases b <;> simp_all
+  | some c =>
+    have h2 := hok.2
+    rw [hw] at h2
+    obtain ⟨hc, hwst, hist, hchain⟩ := h2
+    have hbs : b ≠ .start := fun h => hwst (hb h)
+    right
+    have hcno : NotOwnedFrom (i+1) w c := by
+      intro k' g' hk' hg' hc'
+      exact hinv.distinct i k' g g' c (Nat.le_refl _) (Nat.le_of_succ_le hk') (by omega) hg hg' hw hc'
+    have hne : c ≠ w.cur := fun e => hno i g (Nat.le_refl _) hg (e ▸ hw)
+    have hp : PreInner i c g { w with cur := c } :=
+      ⟨hg, rfl, hc, hok.1, hw, hinv1.withCur c, hcno, ⟨hgood.obs, hgood.nrecs⟩⟩
+    have hpost := innerResume_spec hch hp (wrapInput b) (fun h => absurd h hist) (fun _ => hchain)
+    have hfin := wrapPost_of_inner (w := w) (w3 := { w with cur := c }) ⟨rfl, rfl, rfl, rfl, rfl⟩ hne hpost
+    unfold wrapBodyW
+    rw [hg]
+    cases b with
+    | start => exact absurd rfl hbs
+    | val v => simp only [hw, runIn_snd]; exact hfin
+    | exc e => simp only [hw, runIn_snd]; exact hfin
+
+/-! ### `resumeGen` -/
+
+theorem InvFrom.setGen_self {j w g g'} (h : InvFrom j w) (hg : w.gens j = some g) (hc : g'.wctx = g.wctx)
+    (hok : GenOK w g') : InvFrom j (w.setGen j g') := by
+  constructor
+  · intro k g1 hk hg1
+    by_cases hkj : k = j
+    · subst hkj; simp only [World.setGen, if_true] at hg1; cases hg1; exact hok
+    · simp only [World.setGen, hkj, if_false] at hg1; exact h.ok k g1 hk hg1
+  · intro k k' g1 g2 c hk hk' hne h1 h2 hc1 hc2
+    by_cases hkj : k = j <;> by_cases hkj' : k' = j
+    · omega
+    · subst hkj
+      simp only [World.setGen, if_true] at h1; cases h1
+      simp only [World.setGen, hkj', if_false] at h2
+      exact h.distinct k k' g g2 c hk hk' hne hg h2 (hc ▸ hc1) hc2
+    · subst hkj'
+      simp only [World.setGen, if_true] at h2; cases h2
+      simp only [World.setGen, hkj, if_false] at h1
+      exact h.distinct k k' g1 g c hk hk' hne h1 hg hc1 (hc ▸ hc2)
+    · simp only [World.setGen, hkj, hkj', if_false] at h1 h2
+      exact h.distinct k k' g1 g2 c hk hk' hne h1 h2 hc1 hc2
+
+theorem resumeGen_eq (k : Bool) (fuel i : Nat) (inp : Inp) (w : World) (g : GSt) (hg : w.gens i = some g)
+    (hwr : g.wrapped = true) :
+    (resumeGen k (fuel + 1) i inp w).2 =
+      match (proto (wrapBodyW k (fun j inp' w' => if i < j then resumeGen k fuel j inp' w' else (.raised .badGen, w')) i) g.wst inp w).2.gens i with
+      | none => (proto (wrapBodyW k (fun j inp' w' => if i < j then resumeGen k fuel j inp' w' else (.raised .badGen, w')) i) g.wst inp w).2
+      | some g' => (proto (wrapBodyW k (fun j inp' w' => if i < j then resumeGen k fuel j inp' w' else (.raised .badGen, w')) i) g.wst inp w).2.setGen i
+          { g' with wst := (proto (wrapBodyW k (fun j inp' w' => if i < j then resumeGen k fuel j inp' w' else (.raised .badGen, w')) i) g.wst inp w).1.1 } := by
+  simp only [resumeGen, hg, hwr, if_true]
+  generalize proto _ g.wst inp w = r
+  obtain ⟨⟨st, o⟩, w'⟩ := r
+  simp only
+  cases w'.gens i <;> rfl
+
+theorem resumeGen_spec (k : Bool) : ∀ (fuel j : Nat), ResSpec (resumeGen k fuel j) j := by
+  intro fuel
+  induction fuel with
+  | zero =>
+    intro j inp w hinv _ _ hgood _
+    exact ⟨hinv, Frame.refl j w, hgood⟩
+  | succ fuel ih =>
+    intro j inp w hinv hlt hno hgood hpend
+    cases hg : w.gens j with
+    | none =>
+      have : (resumeGen k (fuel + 1) j inp w).2 = w := by simp [resumeGen, hg]
+      rw [this]; exact ⟨hinv, Frame.refl j w, hgood⟩
+    | some g =>
+      have hok := hinv.ok j g (Nat.le_refl _) hg
+      rw [resumeGen_eq k fuel j inp w g hg hok.1]
+      have hch : ChildOK (fun j' inp' w' => if j < j' then resumeGen k fuel j' inp' w' else (.raised .badGen, w')) j := by
+        intro j'
+        by_cases hj : j < j'
+        · left; refine ⟨hj, ?_⟩
+          simp only [hj, if_true]
+          exact ih j'
+        · right; intro inp' w'; simp only [hj, if_false]
+      generalize (fun j' inp' w' => if j < j' then resumeGen k fuel j' inp' w' else ((Out.raised Exc.badGen, w') : Out × World)) = child at hch
+      -- the case where nothing but the wrapper status changes
+      have hsame : ∀ st : Status, (st = .unstarted → g.wst = .unstarted) →
+          InvFrom j (w.setGen j { g with wst := st }) ∧ Frame j w (w.setGen j { g with wst := st }) ∧ Good (w.setGen j { g with wst := st }) := by
+        intro st hst
+        refine ⟨hinv.setGen_self hg rfl ?_, (Frame.refl j w).setGen_right hg rfl, ⟨hgood.obs, hgood.nrecs⟩⟩
+        refine ⟨hok.1, ?_⟩
+        have h2 := hok.2
+        cases hw : g.wctx with
+        | none => rw [hw] at h2; exact h2
+        | some c =>
+          rw [hw] at h2
+          exact ⟨h2.1, fun e => h2.2.1 (hst e), h2.2.2⟩
+      rcases proto_cases (wrapBodyW k child j) g.wst inp w with ⟨b, hb1, _, hw, hst⟩ | ⟨hw, _, hst⟩
+      · rcases wrapBodyW_spec (k := k) hch hinv hlt hno hgood hpend hg b (fun h => (hb1 h).1) with hu | hp
+        · rw [hu] at hw
+          generalize proto (wrapBodyW k child j) g.wst inp w = r at hw hst
+          rw [hw, hg]
+          exact hsame r.1.1 (fun e => absurd e hst)
+        · rw [← hw] at hp
+          generalize proto (wrapBodyW k child j) g.wst inp w = r at hp hst
+          obtain ⟨g', c, a1, a2, a3, a4, a5, a6, a7, a8, a9, a10, a11, a12⟩ := hp
+          rw [a1]
+          refine ⟨?_, a12.setGen_right a1 rfl, ⟨a11.obs, a11.nrecs⟩⟩
+          have hok' : GenOK (r.2.setGen j { g' with wst := r.1.1 }) { g' with wst := r.1.1 } := by
+            refine ⟨a3, ?_⟩
+            simp only [a2]
+            exact ⟨a7, hst, a5, a6⟩
+          refine InvFrom.extend (a9.setGen_lt (Nat.lt_succ_self j)) (by simp [World.setGen]) hok' ?_
+          intro c' hc'
+          simp only [a2] at hc'
+          cases hc'
+          exact a10.setGen_lt (Nat.lt_succ_self j)
+      · generalize proto (wrapBodyW k child j) g.wst inp w = r at hw hst
+        rw [hw, hg]
+        exact hsame r.1.1 (fun e => (hst e).1)
+
 end Gen
